@@ -223,12 +223,27 @@ func WriteEvidence(ev *Evidence) {
 	}
 }
 
-// Components is the "what ran real, what was stubbed" table shared by all engines.
-func Components() map[string]interface{} {
+// Components is the "what ran real, what was simulated, what was stubbed" table of one engine ("A", "B" or "C").
+func Components(engine string) map[string]interface{} {
+	real := []string{"working tree's cmd/wire + internal/wire (instrumented scratch copy; one real process per command)", "go/packages + `go list` subprocesses", "go/types", "go/format", "the real file system under a private scratch root"}
+	simulated := []string{"iteration order of every Go map / typeutil.Map / reflect map-key walk in wire", "clock, pid, hostname reads (values the seams would return if wire read them)"}
+	synthetic := []string{}
+	switch engine {
+	case "A":
+		real = append(real, "Go compiler and linker", "the generated injectors (wire_gen.go), executed in a driver process")
+		simulated = append(simulated, "provider failures in generated injectors (which error-capable call fails, what it returns next to the error)", "the caller of the injector (invokes the returned cleanup once)")
+		synthetic = append(synthetic, "user provider functions of the workload programs (bodies owned by the simulator: record the call, succeed or fail as planned)")
+	case "B":
+		simulated = append(simulated, "checkout location, cwd + package pattern, co-processed packages, dependency layout, environment noise (configurations, not faults)")
+		synthetic = append(synthetic, "workload programs (wire's testdata corpus + seeded modules); never executed, only generated")
+	case "C":
+		simulated = append(simulated, "file read/write/create-temp/getwd outcomes and crash points of the wire process (errors, short and torn writes, exit at a chosen write)", "availability of the go tool", "modification times, left-over and hand-damaged output files (history)")
+		synthetic = append(synthetic, "workload packages (template variants and seeded modules); never executed, only analysed")
+	}
 	return map[string]interface{}{
-		"real":      []string{"working tree's cmd/wire + internal/wire (instrumented scratch copy)", "go/packages + `go list`", "go/types", "go/format", "Go compiler and linker", "generated injectors (engine A)"},
-		"synthetic": []string{"user provider functions of the workload programs (bodies owned by the simulator)"},
-		"simulated": []string{"iteration order of every Go map / typeutil.Map / reflect map-key walk", "file read/write/getwd outcomes and crash points of the wire process", "clock, pid, hostname reads", "provider failures in generated injectors"},
+		"real":      real,
+		"synthetic": synthetic,
+		"simulated": simulated,
 		"stubbed":   []string{},
 	}
 }
